@@ -17,15 +17,16 @@ Import ListNotations.
 Open Scope Z_scope.
 
 (* 1. in-place pruning = restriction to the complement (both settings of suppress_unifurcations;
-      update_bipartitions applies the structural effect of encode_bipartitions on top);
+      update_bipartitions applies the structural effect of encode_bipartitions(suppress_unifurcations=sup)
+      on top: basal collapse of a tree that is not rooted, nothing on a rooted one - see 12);
       emptying the tree is AttributeError with the bare seed left behind *)
 Theorem prune_is_restrict :
   forall (taxa : list Z) (upd_bip sup : bool) (t : tree) (rooted : option bool),
     NoDup (ids t) -> leaf_taxa_only t = true ->
     prune_taxa taxa upd_bip sup true false (t, rooted) =
     match restrict sup (drop_taxa taxa) t with
-    | Some r => IOk ([], fst (if upd_bip then encode_effect rooted r else (r, rooted)),
-                         snd (if upd_bip then encode_effect rooted r else (r, rooted)))
+    | Some r => IOk ([], fst (if upd_bip then encode_effect sup rooted r else (r, rooted)),
+                         snd (if upd_bip then encode_effect sup rooted r else (r, rooted)))
     | None => IErr EAttr (set_kids t [])
     end.
 Proof. exact (fun taxa u s => prune_taxa_spec taxa u s true false). Qed.
@@ -41,13 +42,13 @@ Theorem retain_is_prune_complement :
 Proof. exact retain_is_prune_complement_thm. Qed.
 Print Assumptions retain_is_prune_complement.
 
-(* 3. extraction = restriction (always with suppression: the wrappers drop their argument);
+(* 3. extraction = restriction, for both settings of suppress_unifurcations;
       nothing surviving is SeedNodeDeletionException (ValueError on a single-node tree) *)
 Theorem extract_is_restrict :
-  forall (keep : list Z) (sup_arg : bool) (t : tree),
+  forall (keep : list Z) (sup : bool) (t : tree),
     NoDup (ids t) -> leaf_taxa_only t = true ->
-    extract_tree_with_taxa keep sup_arg t =
-    match restrict true (keep_taxa keep) t with
+    extract_tree_with_taxa keep sup t =
+    match restrict sup (keep_taxa keep) t with
     | Some r => XOk r
     | None => XErr (if is_leaf t then EValue else ESeedDel)
     end.
@@ -55,10 +56,10 @@ Proof. exact extract_with_taxa_spec. Qed.
 Print Assumptions extract_is_restrict.
 
 Theorem extract_without_is_restrict :
-  forall (pruned : list Z) (sup_arg : bool) (t : tree),
+  forall (pruned : list Z) (sup : bool) (t : tree),
     NoDup (ids t) -> leaf_taxa_only t = true ->
-    extract_tree_without_taxa pruned sup_arg t =
-    match restrict true (drop_taxa pruned) t with
+    extract_tree_without_taxa pruned sup t =
+    match restrict sup (drop_taxa pruned) t with
     | Some r => XOk r
     | None => XErr (if is_leaf t then EValue else ESeedDel)
     end.
@@ -87,17 +88,17 @@ Theorem extraction_source_maps_back :
 Proof. exact nodes_from_source. Qed.
 Print Assumptions extraction_source_maps_back.
 
-(* 4. agreement: prune / retain-complement / extract-with / extract-without *)
+(* 4. agreement: prune / retain-complement / extract-with / extract-without, suppressing or not *)
 Theorem four_way_agreement :
-  forall (keep pruned : list Z) (ns : nspace) (s1 s2 : bool) (t : tree) (rooted : option bool) (r : tree),
+  forall (keep pruned : list Z) (ns : nspace) (sup : bool) (t : tree) (rooted : option bool) (r : tree),
     NoDup (ids t) -> leaf_taxa_only t = true ->
     (forall n a, In n (leaves t) -> t_taxon n = Some a -> memz a (map fst ns) = true) ->
     (forall n a, In n (leaves t) -> t_taxon n = Some a -> memz a pruned = negb (memz a keep)) ->
-    restrict true (keep_taxa keep) t = Some r ->
-    prune_taxa pruned false true true false (t, rooted) = IOk ([], r, rooted) /\
-    retain_taxa ns keep false true (t, rooted) = IOk ([], r, rooted) /\
-    extract_tree_with_taxa keep s1 t = XOk r /\
-    extract_tree_without_taxa pruned s2 t = XOk r.
+    restrict sup (keep_taxa keep) t = Some r ->
+    prune_taxa pruned false sup true false (t, rooted) = IOk ([], r, rooted) /\
+    retain_taxa ns keep false sup (t, rooted) = IOk ([], r, rooted) /\
+    extract_tree_with_taxa keep sup t = XOk r /\
+    extract_tree_without_taxa pruned sup t = XOk r.
 Proof. exact four_way. Qed.
 Print Assumptions four_way_agreement.
 
@@ -125,20 +126,20 @@ Proof. exact prune_labels_spec. Qed.
 Print Assumptions prune_labels_is_prune.
 
 Theorem extract_labels_is_extract :
-  forall (ns : nspace) (labels keep : list Z) (s1 s2 : bool) (t : tree),
+  forall (ns : nspace) (labels keep : list Z) (sup : bool) (t : tree),
     NoDup (ids t) -> leaf_taxa_only t = true ->
     (forall n a, In n (leaves t) -> t_taxon n = Some a ->
        ((exists lb, tax_label ns a = Some lb /\ In lb labels) <-> In a keep)) ->
-    extract_tree_with_taxa_labels ns labels s1 t = extract_tree_with_taxa keep s2 t.
+    extract_tree_with_taxa_labels ns labels sup t = extract_tree_with_taxa keep sup t.
 Proof. exact extract_with_labels_spec. Qed.
 Print Assumptions extract_labels_is_extract.
 
 Theorem extract_without_labels_is_extract :
-  forall (ns : nspace) (labels pruned : list Z) (s1 s2 : bool) (t : tree),
+  forall (ns : nspace) (labels pruned : list Z) (sup : bool) (t : tree),
     NoDup (ids t) -> leaf_taxa_only t = true ->
     (forall n a, In n (leaves t) -> t_taxon n = Some a ->
        ((exists lb, tax_label ns a = Some lb /\ In lb labels) <-> In a pruned)) ->
-    extract_tree_without_taxa_labels ns labels s1 t = extract_tree_without_taxa pruned s2 t.
+    extract_tree_without_taxa_labels ns labels sup t = extract_tree_without_taxa pruned sup t.
 Proof. exact extract_without_labels_spec. Qed.
 Print Assumptions extract_without_labels_is_extract.
 
@@ -229,8 +230,8 @@ Theorem filter_leaf_nodes_is_restrictG :
     match restrictG sup (keep_ids ok) np_true (keep_ids ok) t with
     | Some r => exists rem,
         filter_leaf_nodes ok true upd_bip sup (t, rooted) =
-        IOk (rem, fst (if upd_bip then encode_effect rooted r else (r, rooted)),
-                  snd (if upd_bip then encode_effect rooted r else (r, rooted)))
+        IOk (rem, fst (if upd_bip then encode_effect sup rooted r else (r, rooted)),
+                  snd (if upd_bip then encode_effect sup rooted r else (r, rooted)))
     | None => filter_leaf_nodes ok true upd_bip sup (t, rooted) = IErr ESeedDel (set_kids t [])
     end.
 Proof. exact filter_leaf_nodes_spec. Qed.
@@ -242,8 +243,8 @@ Theorem prune_leaves_without_taxa_is_restrictG :
     match restrictG sup has_taxon np_true has_taxon t with
     | Some r => exists rem,
         prune_leaves_without_taxa true upd_bip sup (t, rooted) =
-        IOk (rem, fst (if upd_bip then encode_effect rooted r else (r, rooted)),
-                  snd (if upd_bip then encode_effect rooted r else (r, rooted)))
+        IOk (rem, fst (if upd_bip then encode_effect sup rooted r else (r, rooted)),
+                  snd (if upd_bip then encode_effect sup rooted r else (r, rooted)))
     | None => prune_leaves_without_taxa true upd_bip sup (t, rooted) = IErr EAttr (set_kids t [])
     end.
 Proof. exact plwt_spec. Qed.
@@ -269,27 +270,37 @@ Theorem prune_subtree_is_restrictG :
     NoDup (ids t) -> t_id t <> id ->
     exists r, restrictG sup (fun i _ => negb (Z.eqb i id)) (fun i _ => negb (Z.eqb i id)) np_true t = Some r /\
               prune_subtree id upd_bip sup (t, rooted) =
-              IOk ([], fst (if upd_bip then encode_effect rooted r else (r, rooted)),
-                       snd (if upd_bip then encode_effect rooted r else (r, rooted))).
+              IOk ([], fst (if upd_bip then encode_effect sup rooted r else (r, rooted)),
+                       snd (if upd_bip then encode_effect sup rooted r else (r, rooted))).
 Proof. exact prune_subtree_spec. Qed.
 Print Assumptions prune_subtree_is_restrictG.
 
-(* 12. where the library departs from the property (witnesses replay on the implementation) *)
-Theorem extract_wrapper_ignores_declined_refuted :
-  exists keep t, NoDup (ids t) /\ leaf_taxa_only t = true /\
-    exists r, restrict false (keep_taxa keep) t = Some r /\ extract_tree_with_taxa keep false t <> XOk r
-              /\ extract_tree (Some (true, false, ids_where (with_taxa_p keep) t)) false t = XOk r.
-Proof. exact extract_wrapper_declined_refuted. Qed.
-Print Assumptions extract_wrapper_ignores_declined_refuted.
+(* 12. suppression can be declined together with update_bipartitions=True: on a rooted tree the
+       result is exactly the restriction that keeps the unifurcations (cf. suppress_declined);
+       through the extraction wrappers it is extract_is_restrict with sup = false *)
+Theorem update_bipartitions_respects_declined :
+  forall (taxa : list Z) (t r : tree),
+    NoDup (ids t) -> leaf_taxa_only t = true ->
+    restrict false (drop_taxa taxa) t = Some r ->
+    prune_taxa taxa true false true false (t, Some true) = IOk ([], r, Some true).
+Proof. exact update_respects_declined. Qed.
+Print Assumptions update_bipartitions_respects_declined.
 
-Theorem update_bipartitions_overrides_declined_refuted :
-  exists taxa t, NoDup (ids t) /\ leaf_taxa_only t = true /\
-    exists r, restrict false (drop_taxa taxa) t = Some r /\
-              prune_taxa taxa false false true false (t, Some true) = IOk ([], r, Some true) /\
-              prune_taxa taxa true false true false (t, Some true) <> IOk ([], r, Some true).
-Proof. exact update_overrides_declined_refuted. Qed.
-Print Assumptions update_bipartitions_overrides_declined_refuted.
+Theorem example_declined_through_wrapper :
+  extract_tree_with_taxa [0; 2] false ex_tree =
+  XOk (T 0 None None (Some 5120) [T 1 None None (Some 3072) [T 2 (Some 0) None (Some 1024) []];
+                                  T 4 (Some 2) None (Some 4096) []]).
+Proof. exact ex_extract_declined. Qed.
+Print Assumptions example_declined_through_wrapper.
 
+Theorem example_declined_with_update_bipartitions :
+  prune_taxa [1] true false true false (ex_tree, Some true) =
+  IOk ([], T 0 None None (Some 5120) [T 1 None None (Some 3072) [T 2 (Some 0) None (Some 1024) []];
+                                      T 4 (Some 2) None (Some 4096) []], Some true).
+Proof. exact ex_update_declined. Qed.
+Print Assumptions example_declined_with_update_bipartitions.
+
+(* 12b. where the library still departs from the property (witnesses replay on the implementation) *)
 Theorem labels_case_agreement_refuted :
   exists ns t, NoDup (ids t) /\ leaf_taxa_only t = true /\
     (forall n a, In n (leaves t) -> t_taxon n = Some a -> memz a (map fst ns) = true) /\
